@@ -26,7 +26,13 @@ let rec float_of_pos = function
   | Coq_xO p -> 2.0 *. float_of_pos p
   | Coq_xI p -> 2.0 *. float_of_pos p +. 1.0
 
-let float_of_z = function Z0 -> 0.0 | Zpos p -> float_of_pos p | Zneg p -> -. (float_of_pos p)
+(* integer -> double: correctly rounded (one rounding) below 2^62 as the C++ conversion; beyond that the
+   bit-by-bit accumulation may round more than once *)
+let rec pos_bits = function Coq_xH -> 1 | Coq_xO p | Coq_xI p -> 1 + pos_bits p
+let float_of_z = function
+  | Z0 -> 0.0
+  | Zpos p -> if pos_bits p <= 62 then float_of_int (int_of_pos p) else float_of_pos p
+  | Zneg p -> if pos_bits p <= 62 then -. (float_of_int (int_of_pos p)) else -. (float_of_pos p)
 
 (* arbitrary-size Z printed as sign + hex digits, e.g. -0x1f ; parsed by python int(s,16) *)
 let hex_of_pos p =
